@@ -82,6 +82,7 @@ def main() -> int:
     os.environ["CLEMATIS_LOG_DIR"] = os.path.join(scratch, "logs")
     os.environ["CLEMATIS_SNAPSHOT_DIR"] = os.path.join(scratch, "snaps")
     os.environ.setdefault("CI", "true")
+    os.environ["VERIF_TIER"] = a.tier
     os.chdir(scratch)
     sys.path.insert(0, HERE)
     from engine import symx
@@ -131,14 +132,22 @@ def main() -> int:
         if budget is None:
             continue
         budget = budget * a.scale
-        cmd = [PY, "-m", "engine.runob", mn, fn.__name__, "--timeout", str(budget), "--witness-timeout", str(max(30.0, budget / 3))]
-        for x in excl.get((mn, fn.__name__), []):
-            cmd += ["--exclude", x]
-        jobs.append({"module": mn, "fn": fn.__name__, "meta": meta, "cmd": cmd, "hard": budget * 2.5 + 240, "kind": "main", "expect": meta.get("expect")})
+        # case split: one job (= one obligation) per value combination of the split arguments, each with `arg == value` assumed
+        cases = [[]]
+        for sk, svals in (meta.get("split") or {}).items():
+            cases = [c + [(sk, v)] for c in cases for v in svals]
+        for case in cases:
+            cmd = [PY, "-m", "engine.runob", mn, fn.__name__, "--timeout", str(budget), "--witness-timeout", str(max(30.0, budget / 3))]
+            for x in excl.get((mn, fn.__name__), []):
+                cmd += ["--exclude", x]
+            for sk, v in case:
+                cmd += ["--exclude", f"{sk} == {v!r}"]
+            label = fn.__name__ + ("[" + ",".join(f"{k}={v}" for k, v in case) + "]" if case else "")
+            jobs.append({"module": mn, "fn": fn.__name__, "label": label, "meta": meta, "cmd": cmd, "hard": budget * 2.5 + 240, "kind": "main", "expect": meta.get("expect")})
         if a.tier == "thorough":
             for i, (descr, _) in enumerate(getattr(mod, "MUTANTS", {}).get(fn.__name__, [])):
                 mcmd = [PY, "-m", "engine.runob", mn, fn.__name__, "--timeout", str(budget), "--mutant", str(i), "--no-witness"]
-                jobs.append({"module": mn, "fn": fn.__name__, "meta": meta, "cmd": mcmd, "hard": budget * 2.5 + 240, "kind": "mutant", "descr": descr})
+                jobs.append({"module": mn, "fn": fn.__name__, "label": fn.__name__, "meta": meta, "cmd": mcmd, "hard": budget * 2.5 + 240, "kind": "mutant", "descr": descr})
 
     if not any(j["module"] != "harness.selftest" for j in jobs):
         print(f"no obligations for {pid} in tier {a.tier}")
@@ -153,7 +162,7 @@ def main() -> int:
             j["res"] = d
             results.append(j)
 
-    results.sort(key=lambda j: (j["module"], j["fn"], j["kind"], j.get("descr", "")))
+    results.sort(key=lambda j: (j["module"], j["label"], j["kind"], j.get("descr", "")))
     n_ob = n_dis = 0
     inconclusive = []
     paths = queries = 0
@@ -165,7 +174,7 @@ def main() -> int:
     for j in results:
         d = j["res"]
         st = d.get("state")
-        tag = f"{j['module']}:{j['fn']}"
+        tag = f"{j['module']}:{j['label']}"
         paths += int(d.get("paths", 0) or 0) + int((d.get("witness") or {}).get("paths", 0) or 0)
         queries += int(d.get("z3_queries", 0) or 0) + int((d.get("witness") or {}).get("z3_queries", 0) or 0)
         solver_time += float(d.get("z3_time_s", 0) or 0) + float((d.get("witness") or {}).get("z3_time_s", 0) or 0)
@@ -208,7 +217,7 @@ def main() -> int:
         if st == "REFUTED":
             violations += 1
             os.makedirs(os.path.join(HERE, "replay"), exist_ok=True)
-            rp = os.path.join(HERE, "replay", f"{pid}_{j['fn']}.json")
+            rp = os.path.join(HERE, "replay", f"{pid}_{j['label'].replace('[', '_').replace(']', '').replace(',', '_').replace('=', '')}.json")
             with open(rp, "w") as f:
                 json.dump({"property": pid, "module": j["module"], "fn": j["fn"], "args": d.get("model"), "detail": d.get("native_detail")}, f, indent=1)
             print(f"  [REFUTED] {tag} {line_extra}\n    model: {json.dumps(d.get('model'))}\n    native replay: {d.get('native_detail')}")
